@@ -199,6 +199,8 @@ func postStartReach(c *Ctx, roots []*ssa.Function, st *starterInfo, edgeOK func(
 // ---- main -----------------------------------------------------------------------------
 
 func runC07(c *Ctx, r *Report) {
+	r.Rule("C07/waitgroup-add", "every sync.WaitGroup counter is raised by the spawning side, before the goroutine it accounts for exists", 1)
+	checkWaitGroupAddBeforeGo(c, r, "C07/waitgroup-add")
 	importFoundation(c, r, "C07", "queue")
 	r.Rule("C07/cancel-released", "the cancel function of every context the library creates is deferred or called on every path to a return (a poller watching the context does not outlive the operation)", 6)
 	checkCancelDeferred(c, r, "C07/cancel-released")
